@@ -144,7 +144,7 @@ def parse(s):
 
 CASTS = re.compile(r"\(\s*(?:unsigned long long|unsigned long|size_t|int|JDIMENSION)\s*\)")
 TABLES = {"tjMCUWidth", "tjMCUHeight"}
-CONSTS = {"TJ_NUMSAMP", "INT_MAX", "INT_MIN", "DCTSIZE"}
+CONSTS = {"TJ_NUMSAMP", "INT_MAX", "INT_MIN", "DCTSIZE", "D_MAX_BLOCKS_IN_MCU"}
 
 
 def emit(e, mode, checks, params):
@@ -270,7 +270,9 @@ def expand(s):
 
 RENAMES = [(r"\bthis->", ""), (r"\bcinfo->", ""), (r"\bdinfo->", ""), (r"\bcompptr->", ""),
            (r"\bscalingFactor\.num\b", "sf_num"), (r"\bscalingFactor\.denom\b", "sf_denom"),
-           (r"\bstrides\[(\d)\]", r"strides\1"), (r"\bsf_num\b", "sf_num")]
+           (r"\bstrides\[(\d)\]", r"strides\1"), (r"\bsf_num\b", "sf_num"),
+           (r"\bcomp_info\[0\]\.h_samp_factor\b", "yh"), (r"\bcomp_info\[0\]\.v_samp_factor\b", "yv"),
+           (r"\bcomp_info\[k\]\.h_samp_factor\b", "ch"), (r"\bcomp_info\[k\]\.v_samp_factor\b", "cv")]
 
 OUT = []
 DEFS = []
@@ -378,6 +380,11 @@ OUT.append("Definition INT_MIN : Z := -2147483648.")
 OUT.append("Definition DCTSIZE : Z := 8.")
 OUT.append("Definition in_int (x : Z) : bool := (INT_MIN <=? x) && (x <=? INT_MAX).")
 OUT.append("Definition u64 (x : Z) : Z := x mod 18446744073709551616.   (* unsigned long long wrap-around *)\n")
+JL = open(repo + "/src/jpeglib.h").read()
+m = re.search(r"#define\s+D_MAX_BLOCKS_IN_MCU\s+(\d+)", JL)
+if not m:
+    die("D_MAX_BLOCKS_IN_MCU not found in jpeglib.h")
+OUT.append("Definition D_MAX_BLOCKS_IN_MCU : Z := %s." % m.group(1))
 OUT.append("Definition TJ_NUMSAMP : Z := %d." % NUMSAMP)
 for n, v in enum:
     OUT.append("Definition %s : Z := %s." % (n, ("(%d)" % v) if v < 0 else str(v)))
@@ -522,6 +529,31 @@ for fn, sd, callee, callrx in UNI:
                "u_off2_ok := u%s_off2_ok;\n  u_legacy_pw1 := %s; u_legacy_ph1 := %s |}.\n"
                % ((short,) * 11 + ("true" if legacy_w else "false", "true" if legacy_h else "false")))
     uni_names.append(short)
+
+
+# ------------------------------------------------------------------ getSubsamp(): which sampling factors denote which level
+B = Body("getSubsamp")
+B.find(r"if \(dinfo->num_components == 1 && dinfo->jpeg_color_space == JCS_GRAYSCALE\)" + W + r"return TJSAMP_GRAY;", "grayscale special case")
+B.find(r"for \(i = 0; i < TJ_NUMSAMP; i\+\+\) \{" + W + r"if \(i == TJSAMP_GRAY\) continue;", "level loop skipping TJSAMP_GRAY")
+B.find(r"if \(dinfo->num_components == 3 \|\|" + W + r"\(\(dinfo->jpeg_color_space == JCS_YCCK \|\|" + W + r"dinfo->jpeg_color_space == JCS_CMYK\) &&" + W +
+       r"dinfo->num_components == 4\)\) \{", "3-component (or 4-component CMYK/YCCK) test")
+g = B.find(r"if \(" + E + r"\) \{" + W + r"int match = 0;", "standard rule")
+cdef("gs_std", ["yh", "yv", "i"], g.group(1), "math", "getSubsamp: luma factors of the standard form of level i")
+B.find(r"int href = 1, vref = 1;", "standard chroma factors 1x1")
+MATCHK = r"if \(dinfo->comp_info\[k\]\.h_samp_factor == href &&" + W + r"dinfo->comp_info\[k\]\.v_samp_factor == vref\)" + W + r"match\+\+;"
+B.find(MATCHK, "chroma factor comparison")
+B.find(r"if \(match == dinfo->num_components - 1\) \{" + W + r"retval = i;  break;", "all chroma components must match")
+g = B.find(r"if \(" + E + r"\) \{" + W + r"int match = 0;", "non-standard 4:2:2 / 4:4:0 rule")
+cdef("gs_ns", ["yh", "yv", "i"], g.group(1), "math", "getSubsamp: luma factors of the non-standard form of level i")
+g = B.find(r"int href = " + E + r", vref = " + E + r";", "non-standard chroma factors")
+cdef("gs_ns_href", ["i"], g.group(1), "math", "getSubsamp: chroma h factor of the non-standard form")
+cdef("gs_ns_vref", ["i"], g.group(2), "math", "getSubsamp: chroma v factor of the non-standard form")
+B.find(MATCHK, "chroma factor comparison")
+B.find(r"if \(match == dinfo->num_components - 1\) \{" + W + r"retval = i;  break;", "all chroma components must match")
+g = B.find(r"if \(" + E + r"\) \{" + W + r"int match = 0;", "non-standard 4:4:4 rule")
+cdef("gs_444", ["yh", "yv", "i"], g.group(1), "math", "getSubsamp: luma factors of a non-standard 4:4:4 form")
+B.find(r"if \(dinfo->comp_info\[k\]\.h_samp_factor ==" + W + r"dinfo->comp_info\[0\]\.h_samp_factor &&" + W +
+       r"dinfo->comp_info\[k\]\.v_samp_factor ==" + W + r"dinfo->comp_info\[0\]\.v_samp_factor\)" + W + r"match\+\+;", "chroma factors equal to the luma ones")
 
 # ------------------------------------------------------------------ per-plane codec paths
 B = Body("setCompDefaults")
